@@ -5,6 +5,8 @@ A change of loop bound, offset, operand order, operation or phase structure in t
 -/
 import CfavmlModel.Gen.Kernels
 import CfavmlModel.Lemmas.Map2
+import CfavmlModel.Lemmas.Map1v
+import CfavmlModel.Lemmas.Reduce
 
 namespace Cfavml.Thm.Shapes
 variable {T Reg : Type} (E : Env) (R : SimdRegister T Reg) (M : Math T)
@@ -15,5 +17,106 @@ theorem mul_vector : generic_mul_vector E R M = map2T E R true R.mul_dense R.mul
 theorem div_vector : generic_div_vector E R M = map2T E R true R.div_dense R.div M.div := rfl
 theorem max_vertical : generic_max_vertical E R M = map2T E R false R.max_dense R.max M.cmp_max := rfl
 theorem min_vertical : generic_min_vertical E R M = map2T E R false R.min_dense R.min M.cmp_min := rfl
+
+
+/-- vector × scalar arithmetic: asserts, broadcast with `filled`, then the common core -/
+def arithValueT (opDense : DenseLane Reg → DenseLane Reg → Exec (DenseLane Reg)) (opReg : Reg → Reg → Exec Reg)
+    (opTail : T → T → Exec T) (dims : Nat) (value : T) (a result : Slice T) : Exec (Slice T) := do
+  debugAssertEq E a.size dims
+  debugAssertEq E result.size dims
+  let vr ← R.filled value
+  map1vCore E R opDense opReg opTail dims value vr (DenseLane.copy vr) a result
+
+/-- vector × scalar max/min: one assert, broadcast with `filled_dense`, then the common core -/
+def minmaxValueT (opDense : DenseLane Reg → DenseLane Reg → Exec (DenseLane Reg)) (opReg : Reg → Reg → Exec Reg)
+    (opTail : T → T → Exec T) (dims : Nat) (value : T) (a result : Slice T) : Exec (Slice T) := do
+  debugAssertEq E a.size dims
+  let bd ← R.filled_dense value
+  map1vCore E R opDense opReg opTail dims value bd.a bd a result
+
+theorem add_value : generic_add_value E R M = arithValueT E R R.add_dense R.add M.add := rfl
+theorem sub_value : generic_sub_value E R M = arithValueT E R R.sub_dense R.sub M.sub := rfl
+theorem mul_value : generic_mul_value E R M = arithValueT E R R.mul_dense R.mul M.mul := rfl
+theorem div_value : generic_div_value E R M = arithValueT E R R.div_dense R.div M.div := rfl
+theorem max_value : generic_max_value E R M = minmaxValueT E R R.max_dense R.max M.cmp_max := rfl
+theorem min_value : generic_min_value E R M = minmaxValueT E R R.min_dense R.min M.cmp_min := rfl
+
+
+/-! ### reductions: each kernel is its asserts followed by `reduceCore` with its own step functions
+(equal up to re-association of monadic binds, which is what `simp only [bind_assoc]` normalises) -/
+
+theorem sum (dims : Nat) (a : Slice T) : generic_sum E R M dims a = (do
+    debugAssertEq E a.size dims
+    reduceCore E R R.zeroed_dense
+      (fun i acc => do let l1 ← R.load_dense a i; R.add_dense acc l1)
+      R.sum_to_register
+      (fun i acc => do let l1 ← R.load a i; R.add acc l1)
+      R.sum_to_value
+      (fun i v => do let x ← Slice.read a i; M.add v x)
+      dims) := by
+  simp only [generic_sum, reduceCore, bind_assoc]
+
+theorem squared_norm (dims : Nat) (a : Slice T) : generic_squared_norm E R M dims a = (do
+    debugAssertEq E a.size dims
+    reduceCore E R R.zeroed_dense
+      (fun i acc => do let l1 ← R.load_dense a i; R.fmadd_dense l1 l1 acc)
+      R.sum_to_register
+      (fun i acc => do let l1 ← R.load a i; R.fmadd l1 l1 acc)
+      R.sum_to_value
+      (fun i v => do let x ← Slice.read a i; let t ← M.mul x x; M.add v t)
+      dims) := by
+  simp only [generic_squared_norm, reduceCore, bind_assoc]
+
+theorem dot_product (dims : Nat) (a b : Slice T) : generic_dot_product E R M dims a b = (do
+    debugAssertEq E a.size dims
+    debugAssertEq E b.size dims
+    reduceCore E R R.zeroed_dense
+      (fun i acc => do let l1 ← R.load_dense a i; let l2 ← R.load_dense b i; R.fmadd_dense l1 l2 acc)
+      R.sum_to_register
+      (fun i acc => do let l1 ← R.load a i; let l2 ← R.load b i; R.fmadd l1 l2 acc)
+      R.sum_to_value
+      (fun i v => do let x ← Slice.read a i; let y ← Slice.read b i; let t ← M.mul x y; M.add v t)
+      dims) := by
+  simp only [generic_dot_product, reduceCore, bind_assoc]
+
+theorem euclidean (dims : Nat) (a b : Slice T) : generic_euclidean E R M dims a b = (do
+    debugAssertEq E a.size dims
+    debugAssertEq E b.size dims
+    reduceCore E R R.zeroed_dense
+      (fun i acc => do
+        let l1 ← R.load_dense a i; let l2 ← R.load_dense b i
+        let diff ← R.sub_dense l1 l2; R.fmadd_dense diff diff acc)
+      R.sum_to_register
+      (fun i acc => do
+        let l1 ← R.load a i; let l2 ← R.load b i
+        let diff ← R.sub l1 l2; R.fmadd diff diff acc)
+      R.sum_to_value
+      (fun i v => do
+        let x ← Slice.read a i; let y ← Slice.read b i
+        let diff ← M.sub x y; let t ← M.mul diff diff; M.add v t)
+      dims) := by
+  simp only [generic_euclidean, reduceCore, bind_assoc]
+
+theorem max_horizontal (dims : Nat) (a : Slice T) : generic_max_horizontal E R M dims a = (do
+    debugAssertEq E a.size dims
+    reduceCore E R (do let t ← M.min; R.filled_dense t)
+      (fun i acc => do let l1 ← R.load_dense a i; R.max_dense acc l1)
+      R.max_to_register
+      (fun i acc => do let l1 ← R.load a i; R.max acc l1)
+      R.max_to_value
+      (fun i v => do let x ← Slice.read a i; M.cmp_max v x)
+      dims) := by
+  simp only [generic_max_horizontal, reduceCore, bind_assoc]
+
+theorem min_horizontal (dims : Nat) (a : Slice T) : generic_min_horizontal E R M dims a = (do
+    debugAssertEq E a.size dims
+    reduceCore E R (do let t ← M.max; R.filled_dense t)
+      (fun i acc => do let l1 ← R.load_dense a i; R.min_dense acc l1)
+      R.min_to_register
+      (fun i acc => do let l1 ← R.load a i; R.min acc l1)
+      R.min_to_value
+      (fun i v => do let x ← Slice.read a i; M.cmp_min v x)
+      dims) := by
+  simp only [generic_min_horizontal, reduceCore, bind_assoc]
 
 end Cfavml.Thm.Shapes
